@@ -1,7 +1,7 @@
 ------------------------- MODULE ParamGettersTrace -------------------------
 (* Trace judge for C08's getters half (code -> spec).  A trace is [ev |-> <<event, ...>>]; an event
    is one getter call on a real request, recorded at its return:
-     [present, zero, convs, call, res, v, vs, stored, sv, svs]
+     [present, zero, convs, call, res, v, vs, stored, sv, svs, mapsame]
        present, convs  the parameter per the REFERENCE reading of the query string (exported by
                        QueryStringTrace / MC_QueryString) and the reference conversions of its values
        call            as in ParamGetters
@@ -10,7 +10,11 @@
                         400-class HTTP error; "other400": a 400-class error of an undocumented type)
        v / vs          returned number/token, or tokens of a returned list
        stored, sv, svs whether the store dict was written, and with what
-   Clauses:  P:exception  P:outcome (value/default/error where another is due)  P:value  P:bounds
+       mapsame         the request's mapping (req.params), re-read after the call, is what it was before the
+                       first call of the history on this request object (the events of a trace on one request
+                       are a history: ParamGetters!ReadOnly, HistoryFree: each is judged against the unchanged
+                       parameter, whatever was called - or done to a returned list - before)
+   Clauses:  P:readonly   a getter changed the request's mapping  P:exception  P:outcome (value/default/error where another is due)  P:value  P:bounds
              P:store      D:error_class (right 400 class family, other subclass) *)
 EXTENDS ParamGettersOps, Json, IOUtils
 
@@ -40,7 +44,7 @@ Judge(e) ==
     LET X == Outcomes(e.present, e.zero, e.convs, e.call)
         main == IF e.zero /\ e.call.kind # "has" THEN Absent(e.call) ELSE CHOOSE x \in X : TRUE
     IN  IF e.present /\ e.zero THEN "H:status"
-        ELSE IF \E x \in X : JudgeAgainst(e, x) = "ok" THEN "ok"
+        ELSE IF \E x \in X : JudgeAgainst(e, x) = "ok" THEN (IF e.mapsame THEN "ok" ELSE "P:readonly")
         ELSE JudgeAgainst(e, main)
 
 Step == /\ l >= 1 /\ l <= Len(T.ev) /\ verdict = "ok"
